@@ -276,8 +276,9 @@ class ThisRef(Var):
 class Indexer(Reference):
 	@property
 	@Meta.embed(Node, expandable)
-	def receiver(self) -> 'Reference | FuncCall | Generator':
-		return self._at(0).one_of(Reference, FuncCall, Generator)
+	def receiver(self) -> 'Reference | FuncCall | Generator | Literal | Group':
+		# XXX Relay.receiverと同様に、リテラル/グループ式をレシーバーとして許容 (例: 'abc'[0], (a + b)[0])
+		return self._at(0).one_of(Reference, FuncCall, Generator, Literal, Group)
 
 	@property
 	@Meta.embed(Node, expandable)
